@@ -7,6 +7,7 @@
 -/
 import Yabgp.Lemmas.Compose
 import Yabgp.Props.C09
+import Yabgp.Props.C07a
 
 namespace Yabgp
 open Spec
